@@ -40,15 +40,21 @@ C.absmax_scale = logged_absmax
 orig_in, orig_out = Calibration.calibrate_input, Calibration.calibrate_output
 
 
-def wrap_in(self, module, input, *a, **k):
+def expect_hook(module, input):
+    """the worker's OWN global forward pre-hook, registered around every calibration context before the context is entered (so it runs
+    first, and whether or not the context registers its hooks): what this batch must contribute to the input scale of the module,
+    computed from the tensor itself"""
     name = getattr(module, "name", None)
-    CUR.update(module=name, kind="in")
-    if name is not None and not isinstance(input[0], QBytesTensor) and isinstance(input[0], torch.Tensor) and getattr(module, "activation_qtype", None) is not None:
-        # what this batch must contribute, computed here from the tensor itself (independently of what calibrate_input does)
+    if name is not None and input and not isinstance(input[0], QBytesTensor) and isinstance(input[0], torch.Tensor) and getattr(module, "activation_qtype", None) is not None:
         qt = module.activation_qtype
         qmax = float(torch.iinfo(qt.dtype).max) if not qt.is_floating_point else float(torch.finfo(qt.dtype).max)
         exp = torch.max(torch.abs(input[0].detach())) / qmax
         LOG.append({"module": name, "kind": "in_expected", "bits": bits(exp), "dtype": str(exp.dtype).replace("torch.", "")})
+
+
+def wrap_in(self, module, input, *a, **k):
+    name = getattr(module, "name", None)
+    CUR.update(module=name, kind="in")
     if name is not None and isinstance(input[0], QBytesTensor) and getattr(module, "activation_qtype", None) is not None:
         LOG.append({"module": name, "kind": "in_quantized", "bits": bits(torch.max(input[0]._scale)), "dtype": str(input[0]._scale.dtype).replace("torch.", "")})
     try:
@@ -118,8 +124,16 @@ def main():
             snaps = []
             gen = torch.Generator().manual_seed(case["seed"] + 1)
             shape = (2, case["width"], 2, 2) if "conv" in case["layers"] else (3, case["width"])
+            ctxobj = None
             for ctx in case["contexts"]:
-                with torch.no_grad(), Calibration(momentum=case["momentum"], streamline=case.get("streamline", True)):
+                # (reuse_ctx: ONE Calibration object entered again for every successive context)
+                if case.get("reuse_ctx"):
+                    ctxobj = ctxobj if ctxobj is not None else Calibration(momentum=case["momentum"], streamline=case.get("streamline", True))
+                    cal = ctxobj
+                else:
+                    cal = Calibration(momentum=case["momentum"], streamline=case.get("streamline", True))
+                own = torch.nn.modules.module.register_module_forward_pre_hook(expect_hook)
+                with torch.no_grad(), cal:
                     for mag in ctx:
                         if mag == "sentinel":
                             x = torch.zeros(shape, dtype=dtype)
@@ -140,6 +154,7 @@ def main():
                                 snap[m.name] = {"in": bits(m.input_scale), "out": bits(m.output_scale), "in_dtype": str(m.input_scale.dtype).replace("torch.", ""),
                                                 "out_dtype": str(m.output_scale.dtype).replace("torch.", ""), "act": None if m.activation_qtype is None else m.activation_qtype.name}
                         snaps.append({"scales": snap, "log": LOG[nlog:]})
+                own.remove()
             out.append({"ok": True, "snaps": snaps})
         except Exception as ex:  # noqa: BLE001
             import traceback
